@@ -253,6 +253,8 @@ class Interp1:
                 self.asked.append(txt)
                 raise _Case(txt)
             return self.decisions[txt]
+        if isinstance(e, ast.Name) and isinstance(self.env.get(e.id), bool):
+            return self.env[e.id]
         if isinstance(e, ast.UnaryOp) and isinstance(e.op, ast.Not):
             return not self.cond(e.operand)
         if isinstance(e, ast.BoolOp) and isinstance(e.op, ast.And):
@@ -299,6 +301,11 @@ class Interp1:
             return [self.ev(x) for x in e.elts]
         if isinstance(e, ast.UnaryOp) and isinstance(e.op, ast.USub):
             return -self.ev(e.operand)
+        if isinstance(e, ast.IfExp):
+            return self.ev(e.body) if self.cond(e.test) else self.ev(e.orelse)
+        if isinstance(e, (ast.BoolOp, ast.Compare)) or (isinstance(e, ast.UnaryOp) and isinstance(e.op, ast.Not)):
+            # a boolean-valued expression stored in a variable: decided like a condition (unknown content -> both ways)
+            return self.cond(e)
         if isinstance(e, ast.BinOp):
             l, r = self.ev(e.left), self.ev(e.right)
             if isinstance(e.op, ast.Add):
@@ -320,6 +327,9 @@ class Interp1:
                 return ("segitem", b, k)
             if isinstance(b, list):
                 return b[k.c if isinstance(k, Aff) else k]
+            if (isinstance(b, tuple) and b and b[0] == "raw") or isinstance(b, Opaque):
+                # an item of a raw (not yet compiled) nested block: content unknown
+                return Opaque(src(e))
             raise AnalysisError("emit1: subscript `%s`" % src(e))
         if isinstance(e, ast.Call):
             f = src(e.func)
@@ -351,9 +361,13 @@ class Interp1:
                 if all(isinstance(a, Aff) and a.is_const() for a in args):
                     return [Aff(i) for i in range(*[a.c for a in args])]
                 raise AnalysisError("emit1: symbolic range outside a for header")
+            if f == "isinstance" and isinstance(self.ev(e.args[0]), Opaque):
+                return Opaque(src(e))
             if isinstance(e.func, ast.Attribute):
                 b = self.ev(e.func.value)
                 m = e.func.attr
+                if isinstance(b, Opaque):
+                    return Opaque(src(e))
                 args = [self.ev(a) for a in e.args]
                 if isinstance(b, Layout):
                     if m == "append":
@@ -374,6 +388,15 @@ class Interp1:
                     return None
             raise AnalysisError("emit1: call `%s` not modelled" % src(e)[:60])
         raise AnalysisError("emit1: expression `%s` not modelled" % src(e)[:60])
+
+
+class Opaque:
+    """Content of a raw nested block: nothing is known about it."""
+    def __init__(self, text):
+        self.text = text
+
+    def __repr__(self):
+        return "Opaque(%s)" % self.text
 
 
 def find_cases(fn):
